@@ -22,6 +22,23 @@ CLAIMED = {
 NA = {
 }
 
+CLAIMED['C19'] = dict(
+    level='other',
+    text='Symbolic execution of the MIR of the real plusz/timesz relations (constructor, Solve::solve, Constraint::run) and of '
+         'State::unify/run_constraints with z3 deciding ALL integer values inside a window: program skeletons with one or two '
+         'constraints, every operand kind/aliasing pattern, optional variable-variable unification before/after posting, every '
+         'binding order and every binding prefix. Per feasible path the solver checks: success => every equation holds on the '
+         'answer; failure => the equations have no solution; no panic; an operand determined by the other two is bound in the answer. '
+         'Appropriate because the arithmetic arms are reached only through State-level code that Kani cannot execute, and the '
+         'rare inputs (zero factors, non-divisible products, aliasing, wake-up order) are exactly what a solver finds.',
+    note='Trusted: the mirsym executor and its std models (HashMap/HashSet as association lists with the crate\'s own PartialEq, Vec, '
+         'Option/Result, Rust integer semantics), z3 5.1, the nightly MIR dump (regenerated from /repo on every run). Every reported '
+         'counterexample is first replayed as a proto_vulcan_query! program against the native library. Bound: window |n|<=12 (plusz) / '
+         '|n|<=4 (timesz) quick, 100 / 12 thorough; <= 3 variables; <= 2 constraints; U=DefaultUser. Outside: interaction with CLP(FD) domains, longer chains.',
+    technique='symbolic execution of rustc MIR (own executor) with z3 deciding all integer inputs per path; native replay of models',
+    engine='mirsym',
+    design='DESIGN.md §3 C19')
+
 ALL = ['C%02d' % i for i in range(1, 25)]
 PENDING = 'check not built yet in this round (construction order in DESIGN.md §4); not claimed until its engine layer is validated'
 
@@ -56,7 +73,7 @@ def main():
         'engines': [
             {'name': 'kani', 'path': '/verif/kani', 'serves_properties': ['C18'],
              'kind_free_text': 'Kani proof harnesses over the real crate (path dependency on /repo), run per harness through goto-cc/goto-instrument/cbmc by lib/kanirun.py'},
-            {'name': 'mirsym', 'path': '/verif/mirsym', 'serves_properties': [],
+            {'name': 'mirsym', 'path': '/verif/mirsym', 'serves_properties': ['C19'],
              'kind_free_text': 'own symbolic executor for rustc MIR (-Zunpretty=mir of /repo, regenerated per run) with z3 as the deciding solver'},
         ],
         'checks': checks,
